@@ -89,8 +89,7 @@ def handle (op : String) (req : Json) : Except String Json := do
     let L ← getList getNat (← field req "L")
     let cs ← getList getNat (← field req "cs")
     if w = 0 then throw "w = 0"
-    pure (Json.mkObj [("asis", outE (listJson pairJson) (ctrIdsMpiFlat w L cs)),
-                      ("intended", outE (listJson pairJson) (ctrIdsMpiFlatIntended w L cs))])
+    pure (outE (listJson pairJson) (ctrIdsMpiFlat w L cs))
   | "max" =>
     let locals ← getList (getList getDist) (← field req "locals")
     if locals.length = 0 then throw "w = 0"
